@@ -503,6 +503,9 @@ func (a *agg) add(prop string, o outcome) {
 		for _, v := range rep.Result.Violations {
 			if !strings.HasPrefix(v.Oracle, prop+".") && !strings.HasPrefix(v.Oracle, "infra.") {
 				a.otherProps[v.Oracle]++
+				if os.Getenv("VCHECK_SURVEY") != "" && a.otherProps[v.Oracle] <= 2 {
+					fmt.Printf("SURVEY-OTHER-EXAMPLE %s|%s family=%s seed=%d: %s\n", v.Oracle, v.Key, o.job.family, o.job.seed, firstN(v.Detail, 400))
+				}
 			}
 		}
 	}
@@ -604,6 +607,12 @@ func cmdRun(prop string) int {
 		return 2
 	}
 	fmt.Printf("vcheck: determinism sample ok (%d executions) at %.1fs\n", len(detSeen)*3, time.Since(t0).Seconds())
+	knownSigs := map[string]bool{}
+	for _, k := range loadKnown().Known {
+		if k.Property == prop {
+			knownSigs[k.Signature] = true
+		}
+	}
 	deadline := time.Now().Add(bud.wall)
 	raceEvery := scen.RaceEvery(prop)
 	i := 0
@@ -617,7 +626,13 @@ func cmdRun(prop string) int {
 		}
 		i++
 		a.mu.Lock()
-		stop := len(a.found) > 0 && a.runs > 200 || len(a.infra) >= 5
+		unknownFound := 0
+		for sg := range a.found {
+			if !knownSigs[sg] {
+				unknownFound++
+			}
+		}
+		stop := (unknownFound > 0 && a.runs > 200 && os.Getenv("VCHECK_SURVEY") == "") || len(a.infra) >= 5
 		a.mu.Unlock()
 		if stop {
 			break
@@ -636,6 +651,22 @@ func cmdRun(prop string) int {
 		return 2
 	}
 
+	if os.Getenv("VCHECK_SURVEY") != "" { // development aid: list every signature seen, no shrinking
+		sigs := make([]string, 0, len(a.found))
+		for s := range a.found {
+			sigs = append(sigs, s)
+		}
+		sort.Strings(sigs)
+		for _, s := range sigs {
+			f := a.found[s]
+			fmt.Printf("SURVEY %5d  %s\n        family=%s seed=%d ops=%d: %s\n", f.count, s, f.job.family, f.job.seed, len(f.rep.Scenario.Ops), firstN(f.v.Detail, 600))
+		}
+		for k, v := range a.otherProps {
+			fmt.Printf("SURVEY-OTHER %5d %s\n", v, k)
+		}
+		fmt.Printf("vcheck: survey runs=%d\n", a.runs)
+		return 0
+	}
 	// classify what was found
 	known := loadKnown()
 	var unknown []*foundV
